@@ -347,6 +347,13 @@ func (s Spec) Build() *decimal.Decimal {
 			if d == nil {
 				d = rawFinite(s.Neg, want.Digits, want.Exp, s.P, s.M)
 			}
+		case "padfull":
+			// as "pad", but all the way to the precision (up to 60000 digits of zeros below the value)
+			pad := int(s.P) - len(want.Digits)
+			if pad > 60000 {
+				pad = 60000
+			}
+			d = rawFinite(s.Neg, want.Digits+strings.Repeat("0", pad), want.Exp, s.P, s.M)
 		case "pad":
 			// the mantissa carries zero words below the value's last digit (as exact results of operations at a larger
 			// precision do, and as SetBitsExp and GobDecode accept): up to the precision, at most 12 extra words
